@@ -92,6 +92,17 @@ def silent_labels(spec='DesyncImpl.tla'):
     return sorted(set(re.findall(r'^\s*(z_\w+):', text, re.M)))
 
 
+def per_process_vars(spec='DesyncImpl.tla'):
+    """pc, stack and the procedure locals of the translation (variables indexed by process and written only by that process)"""
+    text = open(os.path.join(SPEC_DIR, spec)).read()
+    text = text[text.index('BEGIN TRANSLATION'):]
+    init = text[text.index('Init =='):]
+    init = init[:init.index('\n\n')]
+    names = re.findall(r'/\\ (\w+) = \[\s*self \\in ProcSet \|->', init)
+    procs = init[init.index('(* Procedure'):] if '(* Procedure' in init else init
+    return [n for n in names if re.search(r'/\\ %s = \[' % n, procs)]
+
+
 def all_labels(spec='DesyncImpl.tla'):
     text = open(os.path.join(SPEC_DIR, spec)).read()
     text = text[:text.index('BEGIN TRANSLATION')]
@@ -157,6 +168,30 @@ HView == <<qstate, qpoll, jobs, wakeBlocked, schedule, pthreads, nspawned, paliv
 ====
 ''' % (name, mc_constants(scn, fixes), ', '.join('"%s"' % l for l in silent))
     cfg = 'SPECIFICATION Spec\n' + CONST_CFG + 'ACTION_CONSTRAINT SilentPriority\nINVARIANT NoViol\nINVARIANT QuiescentOK\nCHECK_DEADLOCK FALSE\n'
+    open(os.path.join(outdir, name + '.tla'), 'w').write(tla)
+    open(os.path.join(outdir, name + '.cfg'), 'w').write(cfg)
+
+
+def write_behaviours(scn, fixes, outdir, name='MB'):
+    """Module for `tlc -simulate`: prints the schedule of every complete behaviour (who moved at which label)"""
+    silent = silent_labels()
+    tla = '''---- MODULE %s ----
+EXTENDS DesyncImpl, TLCExt
+%s
+SilentLabels == {%s}
+IsSilent(p) == pc[p] \\in SilentLabels \\/ (atomic[p] /\\ pc[p] # "Done" /\\ ~(pc[p] = "st_dormant" /\\ thrHeld = p) /\\ ~(pc[p] \\in {"st_reap", "st_dormant", "st_spawn"} /\\ thrHeld # "" /\\ thrHeld # p))
+SilentPriority == (\\E p \\in Procs : IsSilent(p)) => (\\E p \\in Procs : IsSilent(p) /\\ (pc'[p] # pc[p] \\/ stack'[p] # stack[p]))
+Moved(s1, s2, p) == %s
+Mover(s1, s2) == IF \\E p \\in Procs : Moved(s1, s2, p) THEN CHOOSE p \\in Procs : Moved(s1, s2, p) ELSE "?"
+SchedOf(tr) == [i \\in 1..(Len(tr) - 1) |-> LET p == Mover(tr[i], tr[i + 1]) IN IF p = "?" THEN <<"?", "z_none", 0>> ELSE <<p, tr[i].pc[p], IF tr[i].atomic[p] THEN 1 ELSE 0>>]
+NextNT == Next /\\ ~(\\A p \\in Procs : pc[p] = "Done")
+SpecNT == Init /\\ [][NextNT]_vars
+Final == ~ENABLED NextNT
+ASSUME TLCSet(5, <<>>)
+EmitBehaviour == Final => LET s == SchedOf(Trace) IN IF TLCGet(5) = s THEN TRUE ELSE TLCSet(5, s) /\\ PrintT(<<"BEHAVIOUR", s>>)
+====
+''' % (name, mc_constants(scn, fixes), ', '.join('"%s"' % l for l in silent), ' \\/ '.join('s1.%s[p] # s2.%s[p]' % (v, v) for v in per_process_vars()))
+    cfg = 'SPECIFICATION SpecNT\n' + CONST_CFG + 'ACTION_CONSTRAINT SilentPriority\nINVARIANT EmitBehaviour\nCHECK_DEADLOCK FALSE\n'
     open(os.path.join(outdir, name + '.tla'), 'w').write(tla)
     open(os.path.join(outdir, name + '.cfg'), 'w').write(cfg)
 
